@@ -114,40 +114,71 @@ def run(ctx):
                    "Django 6.1 and SQLAlchemy 2.0 on SQLite 3.40", "harness/backends.py fixtures"]
     ctx.assumptions = ["lambda bodies range over non-null child columns (all(x: p) with unknown p is outside the property's quantifier)"]
     quick = ctx.tier == "quick"
+    if quick:
+        # the two database instances are independent: one forked worker each (own Django / SQLAlchemy fixtures)
+        import multiprocessing as mp
+        global _PARENT
+        _PARENT = ctx
+        with mp.get_context("fork").Pool(2) as pool:
+            for part in pool.imap_unordered(_inst_worker, [0, 1]):
+                ctx.states += part.pop("states")
+                ctx.transitions += part.pop("transitions")
+                ctx.tlc_cmds += part.pop("tlc_cmds")
+                ctx.merge(part)
+        _PARENT = None
+    else:
+        for inst in (0, 1):
+            run_instance(ctx, inst)
+    ctx.exhaustive = False
+
+
+_PARENT = None
+
+
+def _inst_worker(inst):
+    import common
+    sub = common.Ctx(_PARENT.prop, _PARENT.tier, _PARENT.seed)
+    run_instance(sub, inst)
+    return {"violations": sub.violations[:200] + [(k, None) for k, _ in sub.violations[200:]], "traces": sub.traces,
+            "evaluations": sub.evaluations, "nontrivial": sub.nontrivial, "samples": sub.samples, "notes": sub.notes,
+            "kf_hit": sub.kf.hit, "states": sub.states, "transitions": sub.transitions, "tlc_cmds": sub.tlc_cmds}
+
+
+def run_instance(ctx, inst):
+    quick = ctx.tier == "quick"
     dj = backends.RelDjango()
     sa = backends.RelSa()
     keep = lambda r: r.get("k") in ("case", "db")
-    for inst in (0, 1):
-        loaded = False
-        for root in ("Post", "Author", "Org"):
-            # Org.authors and Post.authors share their name: Org runs after Post resolved it
-            plans = [(1, None), (4, 300 if root == "Post" else 100)] if quick else [(2, None), (5, 4000 if root == "Post" else 1500)]
-            if root == "Org":
-                plans = [(1, None)] if quick else [(2, None)]
-            seen = set()
-            for mo, sim in plans:
-                consts = {"MaxOps": mo, "Root": '"%s"' % root, "Inst": inst}
-                if sim:
-                    res = tlc.run("MC_C04", constants=consts, simulate=max(1, sim // 16), depth=40, seed=ctx.seed + 41 + inst,
-                                  keep_lines=keep, timeout=7000, heap="12g", check_count=False)
-                else:
-                    res = tlc.run("MC_C04", constants=consts, keep_lines=keep, timeout=7000, heap="12g")
-                ctx.add_tlc(res)
-                if not loaded:
-                    db = [r for r in res.records if r["k"] == "db"][0]["db"]
-                    dj.load(db)
-                    sa.load(db)
-                    loaded = True
-                    total = {"Post": len(db["Post"]), "Author": len(db["Author"]), "Org": len(db["Org"])}
-                for r in res.records:
-                    if r["k"] != "case":
-                        continue
-                    kx = json.dumps(r["tree"])
-                    if kx in seen:
-                        continue
-                    seen.add(kx)
-                    check_case(ctx, r, inst, dj, sa, total)
-    ctx.exhaustive = False
+    loaded = False
+    for root in ("Post", "Author", "Org"):
+        # Org.authors and Post.authors share their name: Org runs after Post resolved it
+        plans = [(1, None), (4, 300 if root == "Post" else 100)] if quick else [(2, None), (5, 4000 if root == "Post" else 1500)]
+        if root == "Org":
+            plans = [(1, None)] if quick else [(2, None)]
+        seen = set()
+        for mo, sim in plans:
+            consts = {"MaxOps": mo, "Root": '"%s"' % root, "Inst": inst}
+            w = 8 if quick else 16
+            if sim:
+                res = tlc.run("MC_C04", constants=consts, simulate=max(1, sim // w), depth=40, seed=ctx.seed + 41 + inst,
+                              keep_lines=keep, timeout=7000, heap="12g" if not quick else "5g", check_count=False, workers=w)
+            else:
+                res = tlc.run("MC_C04", constants=consts, keep_lines=keep, timeout=7000, heap="12g" if not quick else "5g", workers=w)
+            ctx.add_tlc(res)
+            if not loaded:
+                db = [r for r in res.records if r["k"] == "db"][0]["db"]
+                dj.load(db)
+                sa.load(db)
+                loaded = True
+                total = {"Post": len(db["Post"]), "Author": len(db["Author"]), "Org": len(db["Org"])}
+            for r in res.records:
+                if r["k"] != "case":
+                    continue
+                kx = json.dumps(r["tree"])
+                if kx in seen:
+                    continue
+                seen.add(kx)
+                check_case(ctx, r, inst, dj, sa, total)
 
 
 def check_case(ctx, r, inst, dj, sa, total):
